@@ -616,10 +616,19 @@ def _extra_canon(obj):
     return tuple(out)
 
 
+class ReadBackDiffers(Exception):
+    pass
+
+
 def apply(cls, devs):
     obj = base_instance(cls)
     for _, name, val in devs:
         setattr(obj, name, _fresh(val))
+        # what was assigned is what is read (no implied / default value may take the place of a falsy one)
+        if isinstance(val, (bool, int, float, Decimal, str)) and name not in EXTRA_MEMBERS.get(cls.__name__, {}):
+            got = getattr(obj, name)
+            if got != val or (isinstance(val, bool) and got is not val):
+                raise ReadBackDiffers(f'{name}: assigned {val!r}, read back {got!r}')
     return obj
 
 
@@ -712,6 +721,10 @@ def _class_job(acc, arg):
                 fill(obj, 2, variant=0 if devlist is None else 1, everything=True, model=class_model(cls))
             else:
                 obj = apply(cls, devlist)
+        except ReadBackDiffers as ex:
+            acc.violation(f'read-back-differs/{name}/{label.split("#")[0]}', {'class': name, 'instance': label, 'detail': str(ex)},
+                          case={'class': name, 'label': label})
+            continue
         except Exception as ex:  # noqa: BLE001
             # the library refuses the value on assignment (strict type checking): not an instance it can represent
             acc.add('assignments-refused', 1)
